@@ -9,12 +9,12 @@ def units(tier, seed):
         g = [(n, m) for n in (1, 2, 3) for m in (1, 2, 3, 4, 5, 6)] + [(4, 2), (4, 3)]
         t = _mk.QUICK_TABLES
     else:
-        g = [(n, m) for n in (1, 2, 3, 4) for m in range(1, 9)] + [(5, 1), (5, 2), (5, 3), (6, 2)]
+        g = [(n, m) for n in (1, 2, 3) for m in range(1, 9)] + [(4, m) for m in range(1, 7)] + [(5, 1), (5, 2), (5, 3), (6, 2)]
         t = [(n, m) for n in range(1, 5) for m in range(1, 5)]      # including all 65536 4x4 tables
     us = gen.kernel_units(g)
     for n, m in g:
         us.append({'name': f'lindig generator {n}x{m}', 'fn': 'unit_lindig', 'args': {'n': n, 'm': m},
-                   'split': 7 if n * m >= 9 else 0})
+                   'split': (10 if n * m >= 16 else 7) if n * m >= 9 else 0})
     for n, m in t:
         us.append({'name': f'Lattice per table {n}x{m}', 'fn': 'unit_table', 'args': {'n': n, 'm': m},
                    'split': 7 if n * m >= 8 else 0})
